@@ -96,6 +96,21 @@ class C10(ParserSessionProp):
                         f'the reference\'s rank {i} is {ref_scores[i]:.6f}; returned {["%.4f" % s for s in scores]} '
                         f'vs reference {["%.4f" % s for s in ref_scores[:m + 1]]}', kind='scores')
                     return out
+            # each returned tree satisfies the validity and score-accounting properties
+            for rank, st in enumerate(resp):
+                complaints = refparser.check_licensed(st.tree, world.tokens[sid], world.categories, world.memo,
+                                                      world.roots, surely)
+                if complaints:
+                    vio('each_tree_licensed', f'sentence {sid} rank {rank}: {complaints[0]}', kind='licensed')
+                    return out
+                try:
+                    want, m2 = refparser.tree_score(st.tree, world.tag0[sid], world.dep0[sid], world.cat_index, penalty)
+                except (KeyError, IndexError):
+                    continue
+                if abs(want - st.score) > refparser.score_tolerance(m2):
+                    vio('each_tree_scored', f'sentence {sid} rank {rank}: reported {st.score!r}, recomputed {want!r}',
+                        kind='score')
+                    return out
             # first = the 1-best answer
             one = session.alone(world, sid, dict(cfg, nbest=1, max_step=20000))
             if one[0] == 'ok' and not refparser.is_placeholder(one[2]) and one[3] is not None \
